@@ -122,20 +122,28 @@ def work_months(job):
 
 
 def work_seconds(job):
-    lo, hi, day = job
+    """every second of the day, exactly and displaced by a fraction of a second on either side of the
+    half (never the tie itself, whose direction the property does not fix): the parts are those of
+    the NEAREST second, carried into the minute, the hour and over midnight."""
+    lo, hi, day = job[:3]
+    fracs = job[3] if len(job) > 3 else (0,)
     acc = Acc()
     ev = feval.Evaluator()
     for s in range(lo, hi):
-        env = {'A1': day + s / 86400}
-        got = (val(ev.run('=HOUR(A1)', env)), val(ev.run('=MINUTE(A1)', env)), val(ev.run('=SECOND(A1)', env)))
-        acc.add('evaluations', 3)
-        acc.add('states')
-        acc.add('distinct_nontrivial', int(s % 60 in (0, 59)))
-        want = (s // 3600, s // 60 % 60, s % 60)
-        if got != want:
-            acc.violation(dict(kind='seconds', fn='HMS', verdict='wrong-decomposition', second=s, day=day, observed=jsonable(got),
-                               expected=list(want)),
-                          f'serial {day}+{s}/86400: HOUR/MINUTE/SECOND = {got}, expected {want}')
+        for f in fracs:
+            env = {'A1': day + (s + f) / 86400}
+            got = (val(ev.run('=HOUR(A1)', env)), val(ev.run('=MINUTE(A1)', env)), val(ev.run('=SECOND(A1)', env)))
+            acc.add('evaluations', 3)
+            acc.add('states')
+            acc.add('distinct_nontrivial', int(s % 60 in (0, 59)))
+            n = (s + (1 if f > 0.5 else 0)) % 86400
+            want = (n // 3600, n // 60 % 60, n % 60)
+            if got != want:
+                case = dict(kind='seconds', fn='HMS', verdict='wrong-decomposition', second=s, day=day, observed=jsonable(got),
+                            expected=list(want))
+                if f:
+                    case['frac'] = f
+                acc.violation(case, f'serial {day}+{s + f}/86400: HOUR/MINUTE/SECOND = {got}, expected {want}')
     acc.counts['transitions'] = acc.counts.get('evaluations', 0)
     return acc.result()
 
@@ -221,10 +229,11 @@ def run(ctx):
     shifts = list(range(-1200, 1201)) if ctx.thorough else sorted(set(range(-26, 27)) | {-1200, -1199, -120, -49, -48, 48, 49, 120, 1200})
     yrs = [1900, 1901, 1902, 1903, 1904, 1905, 1999, 2000, 2001, 9998, 9999]
     ctx.pmap(work_months, [([y], shifts) for y in yrs], timeout=6000)
-    ctx.pmap(work_seconds, [(s, min(s + 5400, 86400), 0) for s in range(0, 86400, 5400)], timeout=3000)
-    # the same seconds on top of a date part (the rounding guard must survive a large integer part)
-    for day in ([45000, 36526, 2958464] if ctx.thorough else [45000]):
-        ctx.pmap(work_seconds, [(s, min(s + 5400, 86400), day) for s in range(0, 86400, 5400)], timeout=3000)
+    fracs = (0, 0.25, 0.49, 0.51, 0.75) if ctx.thorough else (0, 0.4, 0.6)
+    ctx.pmap(work_seconds, [(s, min(s + 5400, 86400), 0, fracs) for s in range(0, 86400, 5400)], timeout=3000)
+    # the same seconds on top of a date part (the rounding must survive a large integer part)
+    for day in ([45000, 36526, 61, 2958464] if ctx.thorough else [45000, 2958464]):
+        ctx.pmap(work_seconds, [(s, min(s + 5400, 86400), day, fracs) for s in range(0, 86400, 5400)], timeout=3000)
     ctx.pmap(work_yearfrac, [(0,)], timeout=3000)
     ctx.pmap(work_range, [(0,)], timeout=600)
     ctx.sample(dict(state=[60, 1900, 2, 29, 4], note='serial 60 is the fictitious 1900-02-29'))
@@ -249,7 +258,7 @@ def replay(case):
         r = work_months(([y], [case['shift']]))
         r['violations'] = [(c, m) for c, m in r['violations'] if c['serial'] == case['serial'] and c['fn'] == case['fn']]
     elif k == 'seconds':
-        r = work_seconds((case['second'], case['second'] + 1, case.get('day', 0)))
+        r = work_seconds((case['second'], case['second'] + 1, case.get('day', 0), (case.get('frac', 0),)))
     elif k == 'yearfrac':
         r = work_yearfrac((0,))
         r['violations'] = [(c, m) for c, m in r['violations'] if (c['a'], c['b'], c['basis']) == (case['a'], case['b'], case['basis'])]
